@@ -54,10 +54,14 @@ class Robust(Part):
     def cases(self, ctx):
         rng = ctx.rng
         cases = []
+        shapes = [[1], [2], [1, 1], [2, 1], [1, 2, 1], [3, 1, 2], [1, 1, 1, 1], [2, 3, 1, 2]]
+        if not ctx.quick:
+            shapes += [[4, 4], [1, 5, 1, 5], [2, 2, 2, 2, 2, 2], [6], [3, 3, 3]]
         for kind in ("worstcase", "gradient"):
-            for n in (1, 2, 3):
-                for um in (1, 2):
-                    for sizes in ([1], [2], [1, 1], [2, 1], [1, 2, 1], [3, 1, 2], [1, 1, 1, 1], [2, 3, 1, 2]):
+            for n in ((1, 2, 3) if ctx.quick else (1, 2, 3, 4, 5)):
+                for um in ((1, 2) if ctx.quick else (1, 2, 3)):
+                  for rep in range(1 if ctx.quick else 4):
+                    for sizes in shapes:
                         if ctx.quick and rng.random() < 0.35:
                             continue
                         twins = rng.random() < 0.3
@@ -65,7 +69,7 @@ class Robust(Part):
                         pinned = rng.randrange(n) if rng.random() < 0.3 else None
                         cases.append({"kind": kind, "n": n, "userm": um, "sizes": sizes, "run": None, "twins": twins, "pinned": pinned,
                                       "faulty": (not twins) and rng.random() < 0.35, "cseed": rng.randrange(1 << 30)})
-        for _ in range(6 if ctx.quick else 60):
+        for _ in range(6 if ctx.quick else 250):
             cases.append({"kind": "worstcase", "n": rng.randint(1, 3), "userm": rng.randint(1, 2), "sizes": None,
                           "run": rng.choice(["nsga2", "epsmoea"]), "pop": rng.randint(2, 5), "gens": rng.randint(2, 4),
                           "cseed": rng.randrange(1 << 30)})
